@@ -49,4 +49,3 @@ func c01State() *account.AccountDB {
 	st.SetBalance(common.HexToAddress(c01B), vsTokens(5))
 	return st
 }
-
